@@ -58,6 +58,12 @@ IsHex(s) == Len(s) >= 3 /\ StartsWith(s, "#x")
             /\ AllIn(s, 3, Digits \cup HexLow \cup HexUp)
 IsStrLit(s) == Len(s) >= 2 /\ Ch(s, 1) = "\"" /\ Ch(s, Len(s)) = "\""
 
+(* a leaf that can be bound: a symbol, not a literal, keyword or reserved   *)
+(* word                                                                    *)
+IsSymbol(s) == /\ Len(s) >= 1 /\ Ch(s, 1) \notin Digits \cup {":", "#", "\""}
+               /\ s \notin {"true", "false", "_", "!", "as", "let", "forall",
+                             "exists", "match", "par"}
+
 RECURSIVE NumIn(_, _, _, _)
 (* value of characters from..to of s in the given base *)
 NumIn(s, from, to, base) ==
@@ -132,6 +138,7 @@ SortVal(sx, env) ==
 
 (* binder lists ((x S) ...) *)
 IsSortedVar(b) == IsList(b) /\ Len(b.k) = 2 /\ IsLeaf(b.k[1])
+                  /\ IsSymbol(b.k[1].s)
 IsSortedVarList(bl) == IsList(bl) /\ \A i \in 1..Len(bl.k) : IsSortedVar(bl.k[i])
 
 (* constructor declaration (c (sel S) ...) of datatype dt *)
@@ -436,6 +443,7 @@ SortOf(t, env, loc) ==
                   /\ \A i \in 1..Len(t.k[2].k) :
                        /\ IsList(t.k[2].k[i]) /\ Len(t.k[2].k[i].k) = 2
                        /\ IsLeaf(t.k[2].k[i].k[1])
+                       /\ IsSymbol(t.k[2].k[i].k[1].s)
                THEN LET bs == t.k[2].k
                         srt == [i \in 1..Len(bs) |-> SortOf(bs[i].k[2], env, loc)]
                         names == {bs[i].k[1].s : i \in 1..Len(bs)}
